@@ -39,6 +39,7 @@ import (
 	"github.com/honeycombio/refinery/pubsub"
 	"github.com/honeycombio/refinery/sample"
 	"github.com/honeycombio/refinery/sharder"
+	"github.com/honeycombio/refinery/transmit"
 	"github.com/honeycombio/refinery/types"
 	cq "github.com/honeycombio/refinery/verifharness/coqfmt"
 )
@@ -124,6 +125,7 @@ type collTx struct {
 	mu      sync.Mutex
 	evs     []collFwd
 	barrier chan struct{}
+	next    transmit.Transmission // optional: the real transmission behind the recorder
 }
 
 func (t *collTx) EnqueueEvent(ev *types.Event) {}
@@ -143,6 +145,9 @@ func (t *collTx) EnqueueSpan(sp *types.Span) {
 	t.mu.Lock()
 	t.evs = append(t.evs, f)
 	t.mu.Unlock()
+	if t.next != nil {
+		t.next.EnqueueSpan(sp)
+	}
 }
 func (t *collTx) take() []collFwd {
 	t.mu.Lock()
@@ -253,8 +258,22 @@ func collNTraces(in *collInput) int {
 }
 
 // collRun executes the input on the real collector.
-func collRun(in collInput) (*collResult, error) {
-	goBefore := runtime.NumGoroutine()
+// collOpts lets a scenario put real components around the collector (C36 shutdown sequence).
+type collOpts struct {
+	GoBefore int                                                     // goroutine baseline (0: measured at entry)
+	Next     transmit.Transmission                                   // every forwarded span is also handed to it
+	Peer     transmit.Transmission                                   // the collector's PeerTransmission
+	MkEvent  func(s *collSpan, data map[string]any) *types.Event     // event of a span (nil: default)
+	Finish   func()                                                  // after the collector stopped, before goroutines are counted
+}
+
+func collRun(in collInput) (*collResult, error) { return collRunOpts(in, collOpts{}) }
+
+func collRunOpts(in collInput, opts collOpts) (*collResult, error) {
+	goBefore := opts.GoBefore
+	if goBefore == 0 {
+		goBefore = runtime.NumGoroutine()
+	}
 	if in.Workers < 1 {
 		in.Workers = 1
 	}
@@ -290,7 +309,11 @@ func collRun(in collInput) (*collResult, error) {
 	fake := clockwork.NewFakeClockAt(time.Unix(0, in.T0))
 	clock := &collClock{Clock: fake}
 	clock.now.Store(in.T0)
-	tx := &collTx{barrier: make(chan struct{}, 1)}
+	tx := &collTx{barrier: make(chan struct{}, 1), next: opts.Next}
+	var peerTx transmit.Transmission = &collTx{barrier: make(chan struct{}, 1)}
+	if opts.Peer != nil {
+		peerTx = opts.Peer
+	}
 	met := &collMetrics{}
 	ps := &pubsub.LocalPubSub{Config: conf, Metrics: met}
 	ps.Start()
@@ -301,7 +324,7 @@ func collRun(in collInput) (*collResult, error) {
 	coll := &collect.InMemCollector{
 		Config: conf, Clock: clock, Logger: &logger.NullLogger{},
 		Tracer: noop.NewTracerProvider().Tracer("verif"), Health: collNopHealth{},
-		Transmission: tx, PeerTransmission: &collTx{barrier: make(chan struct{}, 1)},
+		Transmission: tx, PeerTransmission: peerTx,
 		PubSub: ps, Metrics: met, StressRelief: &collect.MockStressReliever{}, SamplerFactory: sf,
 		Peers:   peer.NewMockPeers([]string{"api1"}, "api1"),
 		Sharder: &sharder.MockSharder{Self: &sharder.TestShard{Addr: "api1"}},
@@ -458,12 +481,12 @@ func collRun(in collInput) (*collResult, error) {
 				kind = "link"
 			}
 			data := map[string]any{"sid": int64(s.Sid), "cls": int64(s.Cls), "pad": strings.Repeat("x", s.Pad)}
-			sp := &types.Span{
-				TraceID: fmt.Sprintf("t%d", s.Tid),
-				IsRoot:  s.Root,
-				Event: &types.Event{Dataset: "ds", Environment: "env", APIKey: "key0123456789abcdefghij",
-					Data: types.NewPayload(conf, data)},
+			ev := &types.Event{Dataset: "ds", Environment: "env", APIKey: "key0123456789abcdefghij"}
+			if opts.MkEvent != nil {
+				ev = opts.MkEvent(s, data)
 			}
+			ev.Data = types.NewPayload(conf, data)
+			sp := &types.Span{TraceID: fmt.Sprintf("t%d", s.Tid), IsRoot: s.Root, Event: ev}
 			sp.Data.MetaAnnotationType = kind
 			res.Sizes[s.Sid] = sp.GetDataSize()
 			w := res.Owner[s.Tid]
@@ -627,6 +650,9 @@ func collRun(in collInput) (*collResult, error) {
 	}
 	sf.Stop()
 	ps.Stop()
+	if opts.Finish != nil {
+		opts.Finish()
+	}
 	for t0 := time.Now(); time.Since(t0) < 500*time.Millisecond; {
 		res.Leak = runtime.NumGoroutine() - goBefore
 		if res.Leak <= 0 {
